@@ -499,7 +499,14 @@ func ruleVALSHAPE(c *Ctx, r *Report) {
 		}
 	}
 	r.floor(rule, "shape requirements", n, 35)
-	// value lists hold at least two values: the only producer of In nodes is guarded by len > 1
+	ruleLISTIDENT(c, r)
+}
+
+// LIST-IDENT (C08/C10 via VAL-SHAPE): the value list built by the IN production is the very list whose
+// length was tested — no value is filtered out between the test and the node.
+func ruleLISTIDENT(c *Ctx, r *Report) {
+	const rule = "VAL-SHAPE"
+	r.doc(rule+"/LIST-IDENT", "the production that builds IN nodes requires at least two values and builds the list node from the very slice whose length it tested (no de-duplicated or filtered copy): every value written in the list reaches the tree")
 	pt := c.prodTable()
 	inRows := 0
 	for _, row := range pt.Rows {
